@@ -40,6 +40,11 @@ func ProjPanic(r *Result, blank bool) string {
 	return fmt.Sprintf("esc=%q status=%d complete=%v acq=%d rel=%d", esc, r.Status, r.Complete, r.Acq, r.Rel)
 }
 
+// ProjLedger: what the compressor provider saw while the request was served.
+func ProjLedger(r *Result, blank bool) string {
+	return fmt.Sprintf("acq=%d rel=%d anomalies=%d", r.Acq, r.Rel, r.DblRel)
+}
+
 // Human renders a history readably for replay files.
 func Human(h *History, i int) map[string]interface{} {
 	fl := func(fs []Filter) []string {
@@ -353,6 +358,30 @@ func CheckPurity(run *report.Run, o GenOpts, n, maxLen int) error {
 			}
 			if led.Outstanding() != 0 {
 				report1(h, 0, "C19/C13: compressors still outstanding after a concurrent batch", fmt.Sprint(led.Outstanding()), "0")
+			}
+		}
+		// (4) "whichever other requests were served before": every request is preceded by the same
+		// request from a client whose connection breaks after a few body bytes (fault traffic, its
+		// answer is not looked at); the request itself must be answered as in (0), and the fault must
+		// leave nothing behind in the compressor provider
+		{
+			cont, err := Build(h.Cfg)
+			if err != nil {
+				return err
+			}
+			led := Install(h.Cfg.Provider)
+			for i, rq := range h.Reqs {
+				ServeFailing(cont, h.Cfg, rq, led, (i*7+len(h.Line))%23)
+				after := Serve(cont, h.Cfg, rq, led)
+				blank := h.BlankBody(i)
+				if a, b := h.Real[i].Canon(blank), after.Canon(blank); a != b {
+					report1(h, i, "C19: the response differs after a request whose client connection broke", a, b)
+				}
+				run.Count("after-broken-connection-replays")
+			}
+			if _, _, dbl := led.Snapshot(); dbl != 0 || led.Outstanding() != 0 {
+				report1(h, 0, "C19/C13: a request whose client connection broke left the compressor provider inconsistent (an object released twice or never: later requests can be handed an object that is still in use)",
+					fmt.Sprintf("anomalies=%d outstanding=%d", dbl, led.Outstanding()), "anomalies=0 outstanding=0")
 			}
 		}
 	}
